@@ -10,11 +10,12 @@ from harness.framework import Suite
 from harness.swctext import Expect
 
 PID = "C16"
-LEAN_MODS = ["SwcVerif.Props.C16"]
+LEAN_MODS = ["SwcVerif.Props.C16", "SwcVerif.Props.C16Length"]
 THEOREMS = [
     "C16.cumdist_spec", "C16.linspace_spec", "C16.iso_step_le", "C16.isoPositions_adjust", "C16.isoPositions_zero", "C16.isoPositions_noadjust",
     "C16.interp_endpoints", "C16.interp_on_segment", "C16.convex_between", "C16.isoResample_columns", "C16.linearResample_columns",
     "C16.smooth_endpoints_count", "C16.assemble_keeps_interior",
+    "Polyline.plen_samples_le", "C16.resample_length_le", "C16.linearResample_length_le", "C16.isoResample_length_le",
 ]
 TRUSTED = ["hand-written rational models Model/Resample.lean of np.interp / linspace / arange, the two branch resamplers, the moving-average smoother and the "
            "branch re-assembly rule (tied by the c16.branch correspondence; values compared with tolerance 1e-5 because the code computes in float32/64)"]
@@ -348,9 +349,9 @@ class TreeSuite(Suite):
 
 SUITES = [BranchSuite(), TreeSuite()]
 TECHNIQUE = ("Lean 4 theorems over ℚ about the models of np.interp / linspace (end points, equal steps no longer than the spacing, every sample a convex combination "
-             "of two consecutive originals, radii by the same interpolation), of the smoother (end points, count) and of the re-assembly rule (no interior sample "
+             "of two consecutive originals, radii by the same interpolation; over ℝ with the Euclidean norm: the polyline through the samples of both resamplers is no longer than the original, for any sorted abscissae), of the smoother (end points, count) and of the re-assembly rule (no interior sample "
              "lost) + differential correspondence with tolerance + an oracle that walks the original polyline by arc length")
 LEVEL_TEXT = ("Kernel-checked over the rationals: the resampling positions start at 0, end at the branch length, are equally spaced with step ≤ the requested spacing, "
               "their number is ⌈L/d⌉+1; interpolation returns the first/last original at the ends and otherwise a convex combination of two consecutive originals "
-              "(for coordinates and radii alike); smoothing keeps end points and node count; the re-assembly keeps every interior sample exactly once.")
+              "(for coordinates and radii alike); in Euclidean 3-space (real square roots) a resampled branch is never longer than the original branch, for every spacing, both gap modes and every point count; smoothing keeps end points and node count; the re-assembly keeps every interior sample exactly once.")
 LEVEL_NOTE = "Trusted: Lean kernel; rational models tied by correspondence with tolerance; float rounding, square roots, scipy convolve, the assembler's greedy pairing."
